@@ -13,10 +13,13 @@ Ltac side := cbn; repeat split; reflexivity.
 Ltac core := cbn; repeat split; reflexivity.
 
 Lemma inv_exp_some w : InvS w -> exists e, w_exp w = Some e /\ e_deleting e = false /\ counts_nonneg (es_counts (e_st e)).
-Proof. intros [_ (e&ce&He&_&_&D&_&N&_) _ _ _ _ _ _]. eauto. Qed.
+Proof. intros [_ (e&ce&He&_&_&D&_&N&_) _ _ _ _ _ _ _]. eauto. Qed.
 
 Lemma inv_trial_not_deleting w n t : InvS w -> find_trial n (w_trials w) = Some t -> t_deleting t = false.
 Proof. intros I F. apply find_trial_name in F as [_ In]. pose proof (i_del _ I) as D. rewrite Forall_forall in D. auto. Qed.
+
+Lemma inv_trial_good w n t : InvS w -> find_trial n (w_trials w) = Some t -> tgood t.
+Proof. intros I F. apply find_trial_name in F as [_ In]. pose proof (i_tgood _ I) as D. rewrite Forall_forall in D. auto. Qed.
 
 Lemma apply_write_inv w wr onf w1 :
   InvS w -> write_ok w (wr, onf) -> apply_write w wr = Some w1 ->
@@ -31,8 +34,9 @@ Proof.
                 I He eq_refl eq_refl eq_refl Ne) as [I1 E1]. split; [exact I1|split; [exact E1|side]].
   - (* WExpStatus *)
     rewrite He in A. destruct (Nat.eqb (e_rv e) rv); [|discriminate]. inversion A; subst w1.
+    destruct OK as (NN&_).
     destruct (exp_update_inv w e {| e_max := e_max e; e_fin := e_fin e; e_deleting := e_deleting e; e_st := st; e_rv := S (e_rv e) |}
-                I He eq_refl De eq_refl OK) as [I1 E1]. split; [exact I1|split; [exact E1|side]].
+                I He eq_refl De eq_refl NN) as [I1 E1]. split; [exact I1|split; [exact E1|side]].
   - (* WSugCreate *)
     destruct (w_sug w) as [s|] eqn:Es; [discriminate|]. inversion A; subst w1.
     destruct OK as [B1 B2]. destruct (i_bud _ I) as (G0&G1&G2).
@@ -82,14 +86,16 @@ Proof.
   - (* WTrialFin *)
     destruct (find_trial name (w_trials w)) as [t|] eqn:F; [|discriminate]. destruct (Nat.eqb (t_rv t) rv); [|discriminate].
     rewrite (inv_trial_not_deleting _ _ _ I F), andb_false_r in A. inversion A; subst w1.
-    edestruct (trial_update_inv w name) as [I1 E1]; [exact I|exact F| | | |split; [exact I1|split; [exact E1|side]]]; cbn; auto.
-    repeat split; cbn; auto; lia.
+    edestruct (trial_update_inv w name) as [I1 E1]; [exact I|exact F| | | | |split; [exact I1|split; [exact E1|side]]]; cbn; auto.
+    all: try (repeat split; cbn; auto; lia).
+    all: try exact (inv_trial_good _ _ _ I F).
   - (* WTrialStatus *)
     destruct (find_trial name (w_trials w)) as [t|] eqn:F; [|discriminate]. destruct (Nat.eqb (t_rv t) rv) eqn:Er; [|discriminate].
     inversion A; subst w1. apply Nat.eqb_eq in Er.
-    destruct OK as (t0&F0&R0&P0). inversion F0; subst t0.
-    edestruct (trial_update_inv w name) as [I1 E1]; [exact I|exact F| | | |split; [exact I1|split; [exact E1|side]]]; cbn; auto.
-    repeat split; cbn; auto; try lia. intros k K Hk. unfold t_is. cbn. apply P0; auto.
+    destruct OK as (t0&F0&R0&P0). inversion F0; subst t0. destruct (P0 (eq_sym Er)) as [PT PG].
+    edestruct (trial_update_inv w name) as [I1 E1]; [exact I|exact F| | | | |split; [exact I1|split; [exact E1|side]]]; cbn; auto.
+    all: try (repeat split; cbn; auto; try lia; intros k K Hk; unfold t_is; cbn; apply PT; auto).
+    all: try (unfold tgood; cbn; apply PG; exact (inv_trial_good _ _ _ I F)).
   - (* WJobCreate *)
     destruct (find_job name (w_jobs w)); [discriminate|]. inversion A; subst w1.
     split; [eapply InvS_frame; [|exact I]; core|]. split; [apply evolves_core; core|side].
